@@ -189,6 +189,20 @@ def showFlat (c : Circuit) : String :=
 
 def regList (s : String) : List Reg := (listOf s).filterMap parseReg
 
+def gateList (s : String) : List G1 := (dotList s).filterMap parseG1
+
+/-- `fg:<reg>:<gates>` `rf:<reg>:<gates>` `xf:<reg>` `cx:<c>:<t>` `em:<e>:<p>` `mcr:<e>:<p>` `ag:<p>:<gate>` -/
+def parseBuildOp (s : String) : Option BuildOp :=
+  match splitChar ':' s with
+  | ["fg", r, gs] => (parseReg r).map fun rr => .frontGate rr (gateList gs)
+  | ["rf", r, gs] => (parseReg r).map fun rr => .replaceFront rr (gateList gs)
+  | ["xf", r] => (parseReg r).map .removeFront
+  | ["cx", c, t] => do pure (.emitterCnot (← c.toNat?) (← t.toNat?))
+  | ["em", e, p] => do pure (.emission (← e.toNat?) (← p.toNat?))
+  | ["mcr", e, p] => do pure (.mcr (← e.toNat?) (← p.toNat?))
+  | ["ag", p, g] => do pure (.appendGate (← p.toNat?) (← parseG1 g))
+  | _ => none
+
 def dispatch (cmd : String) (a : Args) : Option String :=
   match cmd with
   | "wire.check" =>
@@ -233,6 +247,20 @@ def dispatch (cmd : String) (a : Args) : Option String :=
     match initialization (natsOf ',' (get a "ea")) (natsOf ',' (get a "ma")) with
     | .ok c => some s!"ok {showCircuit c}"
     | .error e => some (showErr e)
+  | "trs.build" =>
+    match (listOf (get a "ops")).mapM parseBuildOp with
+    | none => some "err parse"
+    | some ops =>
+      match solverCircuit (getNat a "ne") (getNat a "np") ops with
+      | some c => some s!"ok {showCircuit c}"
+      | none =>
+        -- say where the discipline was violated
+        let rec go (s : BuildSt) (k : Nat) : List BuildOp → String
+          | [] => s!"err incomplete emitted={showNats "," s.emitted}"
+          | op :: rest => match s.step op with
+            | some s' => go s' (k + 1) rest
+            | none => s!"err refused at={k}"
+        some (go ⟨Circuit.empty (getNat a "ne") (getNat a "np") 1, []⟩ 0 ops)
   | "wire.add" =>
     match circuitOf a, parseOp (get a "op") with
     | some c, some op =>
